@@ -8,7 +8,11 @@
 #include "momo/TreeMap.h"
 using namespace momo;
 
-struct CountMM   // stateless counting memory manager: every byte the tree takes must come back
+static std::map<std::string, long> STAT, STATMAX;   // measured input distribution, printed to stderr at exit
+static void stat(const std::string& k, long n = 1) { STAT[k] += n; }
+static void statmax(const std::string& k, long v) { long& r = STATMAX[k]; if (v > r) r = v; }
+
+struct CountMM   // stateless (empty) counting memory manager: every byte the tree takes must come back
 {
 	static long liveBlocks, liveBytes;
 	explicit CountMM() noexcept {}
@@ -18,82 +22,155 @@ struct CountMM   // stateless counting memory manager: every byte the tree takes
 	CountMM& operator=(const CountMM&) = delete;
 	void* Allocate(size_t size) { void* p = std::malloc(size); if (p == nullptr) throw std::bad_alloc(); ++liveBlocks; liveBytes += long(size); return p; }
 	void Deallocate(void* p, size_t size) noexcept { --liveBlocks; liveBytes -= long(size); std::memset(p, 0xDD, size); __asm__ __volatile__("" : : "r"(p) : "memory"); std::free(p); }   // poison: a stale read is not silently 'still valid'
+	static CountMM make(int) { return CountMM(); }
 };
 long CountMM::liveBlocks = 0; long CountMM::liveBytes = 0;
+
+static long wrongMM = 0;
+template<bool sameId>
+struct StatMM   // stateful memory manager with IsEqual: the two containers' managers compare equal (sameId) or unequal.
+{               // Every block remembers the id of the manager it came from; freeing it through an unequal manager is a violation.
+	int id;
+	explicit StatMM(int i = 0) noexcept : id(i) {}
+	StatMM(StatMM&& o) noexcept : id(o.id) {}
+	StatMM(const StatMM& o) noexcept : id(o.id) {}
+	~StatMM() = default;
+	StatMM& operator=(StatMM&& o) noexcept { id = o.id; return *this; }
+	StatMM& operator=(const StatMM&) = delete;
+	void* Allocate(size_t size) { char* p = static_cast<char*>(std::malloc(size + 16)); if (p == nullptr) throw std::bad_alloc(); *reinterpret_cast<long*>(p) = id; ++CountMM::liveBlocks; CountMM::liveBytes += long(size); return p + 16; }
+	void Deallocate(void* q, size_t size) noexcept { char* p = static_cast<char*>(q) - 16; if (*reinterpret_cast<long*>(p) != id) ++wrongMM; --CountMM::liveBlocks; CountMM::liveBytes -= long(size); std::memset(p, 0xDD, size + 16); __asm__ __volatile__("" : : "r"(p) : "memory"); std::free(p); }
+	bool IsEqual(const StatMM& o) const noexcept { return id == o.id; }
+	static StatMM make(int side) { return StatMM(sameId ? 7 : 1 + side); }
+};
 
 // ---- key kinds -------------------------------------------------------------------------------------------
 struct IntK {   // trivially relocatable
 	typedef int Key; static const bool hasSerial = false;
+	static const bool triv = true, nothrowReloc = true, nothrowSwap = true;
 	static Key make(long k, long) { return int(k); }
 	static long val(const Key& k) { return k; }
 	static long ser(const Key&) { return -1; }
-	static long live() { return 0; }
 };
-struct StrK {   // std::string beyond the SSO size: nothrow-movable, not trivially relocatable
+struct StrK {   // std::string: nothrow-movable, not trivially relocatable.  Even keys stay inside the small-string buffer
+	            // (libstdc++: the object points into itself, so a bitwise relocation is observable), odd keys live on the heap.
 	typedef std::string Key; static const bool hasSerial = false;
-	static Key make(long k, long) { char b[64]; std::snprintf(b, sizeof b, "key-%012ld-padding-beyond-sso", k); return std::string(b); }
-	static long val(const Key& k) { return std::atol(k.c_str() + 4); }
+	static const bool triv = false, nothrowReloc = true, nothrowSwap = true;
+	static Key make(long k, long) { char b[64]; std::snprintf(b, sizeof b, (k % 2 == 0) ? "k%012ld" : "k%012ld-padding-beyond-sso", k); return std::string(b); }
+	static long val(const Key& k) { return std::atol(k.c_str() + 1); }
 	static long ser(const Key&) { return -1; }
-	static long live() { return 0; }
 };
-struct HeapKey {   // owns a heap cell; the move constructor may throw as far as the library knows -> copy-relocated, indexed node layout
-	long* p; long serial;
-	static long liveCount;
-	explicit HeapKey(long k, long s) : p(new long(k)), serial(s) { ++liveCount; }
-	HeapKey(const HeapKey& o) : p(new long(*o.p)), serial(o.serial) { ++liveCount; }
-	HeapKey(HeapKey&& o) noexcept(false) : p(new long(*o.p)), serial(o.serial) { ++liveCount; }
-	HeapKey& operator=(const HeapKey& o) { *p = *o.p; serial = o.serial; return *this; }
-	HeapKey& operator=(HeapKey&& o) noexcept(false) { *p = *o.p; serial = o.serial; return *this; }
-	~HeapKey() { delete p; p = nullptr; --liveCount; }
-	friend bool operator<(const HeapKey& a, const HeapKey& b) { return *a.p < *b.p; }
+static long selfMoves = 0;
+static long heapLive = 0;
+// three heap-owning item classes; what differs is ONLY which special members exist, i.e. the relocation category momo derives:
+#define HEAP_BODY(T) \
+	long* p; long serial; \
+	explicit T(long k, long s) : p(new long(k)), serial(s) { ++heapLive; } \
+	T(const T& o) : p(new long(*o.p)), serial(o.serial) { ++heapLive; } \
+	T& operator=(const T& o) { if (this == &o) ++selfMoves; *p = *o.p; serial = o.serial; return *this; } \
+	~T() { delete p; p = nullptr; --heapLive; } \
+	friend bool operator<(const T& a, const T& b) { return *a.p < *b.p; }
+struct HeapKey {   // copy-only (no move constructor), copy may throw, no nothrow swap: NOT nothrow-relocatable and NOT nothrow-shiftable
+	HEAP_BODY(HeapKey)   // -> copy-relocated with rollback paths, and the library silently selects the indexed node layout whatever TreeNode asks for
 };
-long HeapKey::liveCount = 0;
-struct HeapK {
-	typedef HeapKey Key; static const bool hasSerial = true;
-	static Key make(long k, long s) { return HeapKey(k, s); }
+struct MoveKey {   // copy + move constructor not marked noexcept: momo (GCC/Clang rule MOMO_IS_NOTHROW_RELOCATABLE_APPENDIX) treats it as nothrow-relocatable
+	HEAP_BODY(MoveKey)
+	MoveKey(MoveKey&& o) noexcept(false) : p(new long(*o.p)), serial(o.serial) { ++heapLive; }
+	MoveKey& operator=(MoveKey&& o) noexcept(false) { if (this == &o) ++selfMoves; *p = *o.p; serial = o.serial; return *this; }
+};
+struct SwapKey {   // copy-only as HeapKey, but a nothrow ADL swap: not nothrow-relocatable yet nothrow-shiftable (continuous layout, items shifted by swapping)
+	HEAP_BODY(SwapKey)
+	friend void swap(SwapKey& a, SwapKey& b) noexcept { if (&a == &b) ++selfMoves; std::swap(a.p, b.p); std::swap(a.serial, b.serial); }
+};
+template<class T, bool reloc, bool swp> struct HeapKind {
+	typedef T Key; static const bool hasSerial = true;
+	static const bool triv = false, nothrowReloc = reloc, nothrowSwap = swp;
+	static Key make(long k, long s) { return T(k, s); }
 	static long val(const Key& k) { return *k.p; }
 	static long ser(const Key& k) { return k.serial; }
-	static long live() { return HeapKey::liveCount; }
 };
+typedef HeapKind<HeapKey, false, false> HeapK;
+typedef HeapKind<MoveKey, true, false> MoveK;
+typedef HeapKind<SwapKey, false, true> SwapK;
+// ---- value kinds (maps) ----------------------------------------------------------------------------------
+struct NoV   { typedef long Val; static const bool isMap = false, shiftable = true; static Val make(long s) { return s; } static long ser(const Val& v) { return v; } };
+struct LongV { typedef long Val; static const bool isMap = true, shiftable = true; static Val make(long s) { return s; } static long ser(const Val& v) { return v; } };
+struct StrV  { typedef std::string Val; static const bool isMap = true, shiftable = true; static Val make(long s) { return std::to_string(s); } static long ser(const Val& v) { return std::atol(v.c_str()); } };
+struct HeapV { typedef HeapKey Val; static const bool isMap = true, shiftable = false; static Val make(long s) { return HeapKey(s, s); } static long ser(const Val& v) { return (*v.p == v.serial) ? v.serial : -7; } };
+
+template<bool ver> struct SetS : TreeSetSettings { static const bool checkVersion = ver; };
+template<bool ver> struct MapS : TreeMapSettings { static const bool checkVersion = ver; };
+template<class Key> struct SLess { int tag; explicit SLess(int t = 0) : tag(t) {} bool operator()(const Key& a, const Key& b) const { return a < b; } };   // non-empty comparator
+template<class T> struct CrewUsesPtr;
+template<class A, class B, bool k, bool p> struct CrewUsesPtr<momo::internal::SetCrew<A, B, k, p>> { static const bool value = p; };
 
 typedef std::vector<std::pair<long, long>> Twin;   // (key, serial), always sorted, stable
 
-template<class KK, bool isMap, bool multi, size_t maxCap, size_t step, class Pool, bool cont, bool lin>
+struct TreeStats { long nodes = 0, internals = 0, height = 0, emptyLeaf = 0, emptyInt = 0, fullInt = 0, fullLeafMax = 0; };
+
+//  KK key kind, VK value kind (NoV = set), ver = Settings::checkVersion, MM memory manager, trk traits kind
+//  (0 TreeTraits, 1 TreeTraitsStd with a stateful comparator, 2 TreeTraitsStd<std::less>), layout = the node layout
+//  that must REALLY be instantiated ('C' continuous / 'I' indexed) - checked by static_assert below.
+template<int ID, class KK, class VK, bool multi, size_t maxCap, size_t step, class Pool, bool cont, bool lin, bool ver, class MM, int trk, char layout>
 struct Cfg
 {
 	typedef typename KK::Key Key;
+	typedef typename VK::Val Val;
+	static const bool isMap = VK::isMap;
 	typedef TreeNode<maxCap, step, Pool, cont> TNode;
-	typedef TreeTraits<Key, multi, TNode, lin> Traits;
-	typedef TreeSet<Key, Traits, CountMM> Set;
-	typedef TreeMap<Key, long, Traits, CountMM> Map;
+	typedef typename std::conditional<trk == 0, TreeTraits<Key, multi, TNode, lin>,
+		typename std::conditional<trk == 1, TreeTraitsStd<Key, SLess<Key>, multi, TNode>, TreeTraitsStd<Key, std::less<Key>, multi, TNode>>::type>::type Traits;
+	typedef TreeSet<Key, Traits, MM, TreeSetItemTraits<Key, MM>, SetS<ver>> Set;
+	typedef TreeMap<Key, Val, Traits, MM, TreeMapKeyValueTraits<Key, Val, MM>, MapS<ver>> Map;
 	typedef typename std::conditional<isMap, Map, Set>::type C;
 	typedef typename C::ConstIterator It;
 	static const bool hasSerial = isMap || KK::hasSerial;
+	// a container of ANOTHER type with the same items (template MergeTo<Set>)
+	typedef TreeTraits<Key, multi, TreeNode<(maxCap % 5) + 2, 1, MemPoolParams<1>, !cont>, !lin> AltTraits;
+	typedef typename std::conditional<isMap, TreeMap<Key, Val, AltTraits, MM, TreeMapKeyValueTraits<Key, Val, MM>, MapS<ver>>,
+		TreeSet<Key, AltTraits, MM, TreeSetItemTraits<Key, MM>, SetS<ver>>>::type Alt;
 
+	// ---- the INTENDED classes are really instantiated ------------------------------------------------------
+	typedef typename Set::Node SNode;
+	typedef momo::internal::ObjectManager<Key, MM> KeyMgr;
+	static_assert(KeyMgr::isTriviallyRelocatable == KK::triv, "key category: trivially relocatable");
+	static_assert(KeyMgr::isNothrowRelocatable == KK::nothrowReloc, "key category: nothrow relocatable");
+	static_assert(KeyMgr::isNothrowSwappable == KK::nothrowSwap, "key category: nothrow swappable");
+	static_assert(KeyMgr::isNothrowShiftable == (KK::nothrowReloc || KK::nothrowSwap), "key category: shiftable");
+	static const bool itemShiftable = (KK::nothrowReloc || KK::nothrowSwap) && VK::shiftable;
+	static const bool realCont = cont && itemShiftable;
+	static_assert((layout == 'C') == realCont && (layout == 'C' || layout == 'I'), "declared node layout is not the instantiated one");
+	template<class CC> struct NodeOf { typedef typename CC::Node type; };
+	static const bool setCont = SNode::isContinuous;
+	static_assert(Traits::multiKey == multi && Traits::useLinearSearch == lin, "traits");
+	static_assert(SNode::maxCapacity == maxCap && SNode::capacityStep == (step > 0 ? step : maxCap), "node parameters");
+	static_assert(TNode::MemPoolParams::blockCount == Pool::blockCount && TNode::MemPoolParams::cachedFreeBlockCount == Pool::cachedFreeBlockCount, "pool parameters");
+	static_assert(C::Settings::checkVersion == ver, "settings");
+	static const bool emptyMM = std::is_empty<MM>::value;
+	static const bool ptrCrew = CrewUsesPtr<typename Set::Crew>::value;
+	static_assert(ptrCrew == (ver || !emptyMM), "crew kind (inline crew needs checkVersion=false, an empty memory manager and nothrow-movable traits)");
+	static_assert(std::is_empty<Traits>::value == (trk == 0), "traits emptiness (a non-empty traits object disables the MergeTo shortcuts)");
+	static bool realLayoutCont()
+	{
+		if constexpr (isMap) return std::remove_pointer<decltype(std::declval<Map&>().mTreeSet.mRootNode)>::type::isContinuous;
+		else return SNode::isContinuous;
+	}
+
+	static Traits mkTraits(int side) { if constexpr (trk == 1) return Traits(SLess<Key>(side + 1)); else return Traits(); }
 	static long keyOf(It it) { if constexpr (isMap) return KK::val(it->key); else return KK::val(*it); }
-	static long serOf(It it) { if constexpr (isMap) return it->value; else return KK::ser(*it); }
-	static std::pair<It, bool> ins(C& c, long k, long s)
-	{
-		if constexpr (isMap) { auto r = c.Insert(KK::make(k, s), s); return { It(r.position), r.inserted }; }
-		else { auto r = c.Insert(KK::make(k, s)); return { r.position, r.inserted }; }
-	}
-	static It add(C& c, It hint, long k, long s)
-	{
-		if constexpr (isMap) return It(c.Add(hint, KK::make(k, s), long(s)));
-		else return c.Add(hint, KK::make(k, s));
-	}
+	static long serOf(It it) { if constexpr (isMap) return VK::ser(it->value); else return KK::ser(*it); }
 	static auto& setOf(C& c) { if constexpr (isMap) return c.mTreeSet; else return c; }
-
 	static bool ordered(long a, long b) { return multi ? !(b < a) : a < b; }
 
-	struct Side { C c; Twin tw; };
-	Side sd[2];
+	struct Side { C c; Twin tw; int no; explicit Side(int side) : c(mkTraits(side), MM::make(side)), no(side) {} };
+	Side sd[2] = { Side(0), Side(1) };
 	long serial = 1;
 	std::string out;
 	char buf[128];
+	std::string pfx = "c" + std::to_string(ID) + ".";
 
-	static size_t idx(C& c, It it) { size_t n = 0; for (It i = c.GetBegin(); !(i == it); ++i) { ++n; if (n > 1000000) break; } return n; }
+	static size_t idx(C& c, It it) { size_t n = 0; for (It i = c.GetBegin(); !(i == it); ++i) { ++n; if (n > 10000000) break; } return n; }
 	static It at(C& c, size_t h) { It i = c.GetBegin(); for (size_t n = 0; n < h; ++n) ++i; return i; }
+	static size_t ix(long a, size_t n) { if (a < 0) { size_t m = size_t(-a); return n - std::min(n, m); } return size_t(a) % n; }   // negative: from the end (-1 = last valid)
 	void tok(const char* fmt, ...) { va_list ap; va_start(ap, fmt); std::vsnprintf(buf, sizeof buf, fmt, ap); va_end(ap); out += buf; }
 	void bad(const char* what) { out += " !"; out += what; }
 
@@ -121,6 +198,32 @@ struct Cfg
 		for (size_t i = 0; i <= n->GetCount(); ++i)
 			if (!checkNode(n->GetChild(i), n, depth + 1, leafDepth)) return false;
 		return true;
+	}
+	template<class N> void walk(N* n, long depth, bool isRoot, TreeStats& ts)
+	{
+		++ts.nodes; if (depth + 1 > ts.height) ts.height = depth + 1;
+		if (n->IsLeaf()) { if (n->GetCount() == 0 && !isRoot) ++ts.emptyLeaf; if (n->GetCount() == maxCap) ++ts.fullLeafMax; return; }
+		++ts.internals; if (n->GetCount() == 0) ++ts.emptyInt; if (n->GetCount() == maxCap) ++ts.fullInt;
+		for (size_t i = 0; i <= n->GetCount(); ++i) walk(n->GetChild(i), depth + 1, false, ts);
+	}
+	TreeStats statsOf(C& c) { TreeStats ts; auto& st = setOf(c); if (st.mRootNode != nullptr) walk(st.mRootNode, 0, true, ts); return ts; }
+	TreeStats last[2];
+	void events(Side& s, bool insertOp = false)   // threshold events that REALLY happened (measured on the real tree after every mutating op)
+	{
+		TreeStats b = last[s.no], a = statsOf(s.c); last[s.no] = a;
+		if (a.nodes - a.internals > b.nodes - b.internals && b.nodes > 0) stat(pfx + "leafSplit");
+		if (a.internals > b.internals && b.internals > 0) stat(pfx + "internalNodesAdded", a.internals - b.internals);
+		// an insertion adds internal nodes only by splitting FULL internal nodes (maxCapacity items, maxCapacity+1 children) and by growing a new root
+		if (insertOp && a.internals > b.internals && b.internals > 0 && a.internals - b.internals - (a.height > b.height ? 1 : 0) > 0)
+			stat(pfx + "fullInternalNodeSplit", a.internals - b.internals - (a.height > b.height ? 1 : 0));
+		if (a.height > b.height && b.height > 0) stat(pfx + "rootGrow", a.height - b.height);
+		if (a.height < b.height && a.height > 0) stat(pfx + "rootCollapse", b.height - a.height);
+		if (a.nodes < b.nodes && a.nodes > 0) stat(pfx + "nodesFreedByMerge", b.nodes - a.nodes);
+		if (a.emptyLeaf > 0) stat(pfx + "opsLeavingEmptyLeaf");
+		if (a.emptyInt > 0) stat(pfx + "opsLeavingEmptyInternal");
+		if (a.fullInt > 0) stat(pfx + "opsWithFullInternalNode");
+		if (a.fullLeafMax > 0) stat(pfx + "opsWithLeafAtMaxCapacityFull");
+		statmax(pfx + "maxHeight", a.height); statmax(pfx + "maxCount", long(s.c.GetCount())); statmax(pfx + "maxNodes", a.nodes);
 	}
 
 	void fullCheck(Side& s, bool print)
@@ -154,26 +257,95 @@ struct Cfg
 		if (!ok) bad("BACKWARD");
 		auto& st = setOf(c);
 		if (st.mRootNode != nullptr) { size_t ld = size_t(-1); if (!checkNode(st.mRootNode, decltype(st.mRootNode)(nullptr), 0, ld)) bad("STRUCT"); }
+		if (c.IsEmpty() != tw.empty()) bad("ISEMPTY");
 	}
 
-	static size_t twLb(const Twin& tw, long k) { size_t i = 0; while (i < tw.size() && tw[i].first < k) ++i; return i; }
-	static size_t twUb(const Twin& tw, long k) { size_t i = 0; while (i < tw.size() && !(k < tw[i].first)) ++i; return i; }
+	static size_t twLb(const Twin& tw, long k) { return size_t(std::lower_bound(tw.begin(), tw.end(), k, [] (const std::pair<long, long>& e, long x) { return e.first < x; }) - tw.begin()); }
+	static size_t twUb(const Twin& tw, long k) { return size_t(std::upper_bound(tw.begin(), tw.end(), k, [] (long x, const std::pair<long, long>& e) { return x < e.first; }) - tw.begin()); }
+
+	// every public insertion entry point in turn (chosen by the serial number, invisible in the output)
+	std::pair<It, bool> ins(C& c, long k, long s, Twin& tw)
+	{
+		int var = int(s % 5);
+		if constexpr (isMap)
+		{
+			if constexpr (!multi) if (var == 4)
+			{	// operator[]: inserts, or assigns the value of the present key
+				size_t before = c.GetCount();
+				c[KK::make(k, s)] = VK::make(s);
+				bool inserted = c.GetCount() != before;
+				if (!inserted) { size_t lb = twLb(tw, k); if (lb < tw.size() && tw[lb].first == k) tw[lb].second = s; }
+				stat("insert.map.operator[]");
+				return { It(c.Find(KK::make(k, s))), inserted };
+			}
+			Key key = KK::make(k, s); Val val = VK::make(s);
+			switch (var)
+			{
+			case 0: case 4: { stat("insert.map.Insert(Key&&,Value&&)"); auto r = c.Insert(std::move(key), std::move(val)); return { It(r.position), r.inserted }; }
+			case 1: { stat("insert.map.Insert(const Key&,const Value&)"); auto r = c.Insert(key, val); return { It(r.position), r.inserted }; }
+			case 2: { stat("insert.map.InsertVar(Key&&,args)"); auto r = c.InsertVar(std::move(key), std::move(val)); return { It(r.position), r.inserted }; }
+			default: { stat("insert.map.InsertCrt(const Key&,creator)"); auto r = c.InsertCrt(key, [&val] (Val* p) { ::new(static_cast<void*>(p)) Val(std::move(val)); }); return { It(r.position), r.inserted }; }
+			}
+		}
+		else
+		{
+			Key item = KK::make(k, s);
+			switch (var)
+			{
+			case 0: case 4: { stat("insert.set.Insert(Item&&)"); auto r = c.Insert(std::move(item)); return { r.position, r.inserted }; }
+			case 1: { stat("insert.set.Insert(const Item&)"); auto r = c.Insert(item); return { r.position, r.inserted }; }
+			case 2: { stat("insert.set.InsertVar(key,args)"); Key key2 = KK::make(k, s); auto r = c.InsertVar(key2, std::move(item)); return { r.position, r.inserted }; }
+			default: { stat("insert.set.InsertCrt(key,creator)"); Key key2 = KK::make(k, s); auto r = c.InsertCrt(key2, [&item] (Key* p) { ::new(static_cast<void*>(p)) Key(std::move(item)); }); return { r.position, r.inserted }; }
+			}
+		}
+	}
+	It add(C& c, It hint, long k, long s)
+	{
+		int var = int(s % 4);
+		if constexpr (isMap)
+		{
+			Key key = KK::make(k, s); Val val = VK::make(s);
+			switch (var)
+			{
+			case 0: stat("add.map.Add(it,Key&&,Value&&)"); return It(c.Add(hint, std::move(key), std::move(val)));
+			case 1: stat("add.map.Add(it,const Key&,const Value&)"); return It(c.Add(hint, key, val));
+			case 2: stat("add.map.AddVar(it,Key&&,args)"); return It(c.AddVar(hint, std::move(key), std::move(val)));
+			default: stat("add.map.AddCrt(it,const Key&,creator)"); return It(c.AddCrt(hint, key, [&val] (Val* p) { ::new(static_cast<void*>(p)) Val(std::move(val)); }));
+			}
+		}
+		else
+		{
+			Key item = KK::make(k, s);
+			switch (var)
+			{
+			case 0: stat("add.set.Add(it,Item&&)"); return c.Add(hint, std::move(item));
+			case 1: stat("add.set.Add(it,const Item&)"); return c.Add(hint, item);
+			case 2: stat("add.set.AddVar(it,args)"); return c.AddVar(hint, std::move(item));
+			default: stat("add.set.AddCrt(it,creator)"); return c.AddCrt(hint, [&item] (Key* p) { ::new(static_cast<void*>(p)) Key(std::move(item)); });
+			}
+		}
+	}
+	typedef decltype(std::declval<C&>().Extract(std::declval<It>())) Ext;
+	template<class E> static void rekeyAny(E& ext, long k, long s) { if constexpr (isMap) ext.GetKey() = KK::make(k, s); else ext.GetItem() = KK::make(k, s); }
 
 	void doInsert(Side& s, long k, const char* tag)
 	{
 		size_t lb = twLb(s.tw, k), ub = twUb(s.tw, k);
 		bool expIns = multi || lb == ub; size_t expIdx = expIns ? ub : lb;
 		long ser = serial++;
-		auto r = ins(s.c, k, ser);
+		long keptSer = (!expIns && lb < s.tw.size()) ? s.tw[lb].second : -1;
+		auto r = ins(s.c, k, ser, s.tw);
 		size_t i = idx(s.c, r.first);
 		tok("%s%u/%d", tag, unsigned(i), int(r.second));
 		if (expIns) s.tw.insert(s.tw.begin() + ub, { k, ser });
-		if (i != expIdx || r.second != expIns || keyOf(r.first) != k || (hasSerial && expIns && serOf(r.first) != ser)) bad("INSERT");
+		long expSer = expIns ? ser : s.tw[lb].second; (void)keptSer;
+		if (i != expIdx || r.second != expIns || keyOf(r.first) != k || (hasSerial && serOf(r.first) != expSer)) bad("INSERT");
 	}
 
 	std::string run(std::istringstream& is)
 	{
 		std::string op;
+		stat(pfx + "cases");
 		while (is >> op)
 		{
 			if (!out.empty()) out += ' ';
@@ -181,14 +353,30 @@ struct Cfg
 			if (op[0] == 'b') { side = 1; o = 1; }
 			Side& s = sd[side]; C& c = s.c; Twin& tw = s.tw;
 			char k0 = op[o]; const char* arg = op.c_str() + o + 1;
-			long a1 = 0, a2 = 0; int na = std::sscanf(arg, "%ld:%ld", &a1, &a2); (void)na;
+			long a1 = 0, a2 = 0, a3 = 0; int na = std::sscanf(arg, "%ld:%ld:%ld", &a1, &a2, &a3); (void)na;
+			stat(pfx + "ops"); stat(std::string("op.") + k0);
 			switch (k0)
 			{
 			case 'i': doInsert(s, a1, "I"); break;
+			case 'f': {   // bulk Insert of a1 keys a2, a2+a3, a2+2*a3, ... (big trees: no per-item iterator index)
+				size_t before = c.GetCount();
+				for (long j = 0; j < a1; ++j)
+				{
+					long k = a2 + j * a3, ser = serial++;
+					size_t lb = twLb(tw, k), ub = twUb(tw, k);
+					bool expIns = multi || lb == ub;
+					auto r = ins(c, k, ser, tw);
+					if (expIns) tw.insert(tw.begin() + ub, { k, ser });
+					if (r.second != expIns || keyOf(r.first) != k) { bad("FILL"); break; }
+					events(s, true);
+				}
+				tok("F%u", unsigned(c.GetCount() - before));
+				break; }
 			case 'a': {
-				size_t h = std::min<size_t>(size_t(a1), tw.size()); long k = a2;
+				size_t h = a1 < 0 ? ix(a1, tw.size() + 1) : std::min<size_t>(size_t(a1), tw.size()); long k = a2;
 				bool right = (h == 0 || ordered(tw[h - 1].first, k)) && (h == tw.size() || ordered(k, tw[h].first));
-				if (!right) { doInsert(s, k, "A"); break; }
+				if (h == tw.size()) stat("add.hint==end"); if (h == 0) stat("add.hint==begin");
+				if (!right) { stat("add.wrongHint->Insert"); doInsert(s, k, "A"); break; }
 				long ser = serial++;
 				It r = add(c, at(c, h), k, ser);
 				size_t i = idx(c, r);
@@ -197,13 +385,26 @@ struct Cfg
 				if (i != h || keyOf(r) != k || (hasSerial && serOf(r) != ser)) bad("ADD");
 				break; }
 			case 'q': {
-				long k = a1; typename KK::Key key = KK::make(k, 0);
-				size_t lb = idx(c, It(c.GetLowerBound(key))), ub = idx(c, It(c.GetUpperBound(key)));
-				It f = It(c.Find(key)); size_t fi = idx(c, f);
-				size_t kc = c.GetKeyCount(key); bool ct = c.ContainsKey(key);
+				long k = a1; Key key = KK::make(k, 0);
+				size_t lb, ub, fi, kc; bool ct;
+				if constexpr (std::is_same<Key, int>::value && trk == 0)
+				{
+					if (k % 2 == 0)
+					{	// heterogeneous lookup (KeyArg = long)
+						stat("query.KeyArg");
+						lb = idx(c, It(c.GetLowerBound(k))); ub = idx(c, It(c.GetUpperBound(k))); fi = idx(c, It(c.Find(k)));
+						kc = c.GetKeyCount(k); ct = c.ContainsKey(k);
+						goto queried;
+					}
+				}
+				lb = idx(c, It(c.GetLowerBound(key))); ub = idx(c, It(c.GetUpperBound(key)));
+				fi = idx(c, It(c.Find(key)));
+				kc = c.GetKeyCount(key); ct = c.ContainsKey(key);
+			queried:
 				tok("Q%u,%u,%u,%u,%d", unsigned(lb), unsigned(ub), unsigned(fi), unsigned(kc), int(ct));
 				size_t elb = twLb(tw, k), eub = twUb(tw, k);
 				if (lb != elb || ub != eub || kc != eub - elb || ct != (eub > elb) || fi != (eub > elb ? elb : tw.size())) bad("QUERY");
+				if (eub > elb) stat("query.present"); else stat("query.absent");
 				break; }
 			case 't': fullCheck(s, true); break;
 			case 's': {
@@ -212,7 +413,8 @@ struct Cfg
 				break; }
 			case 'r': {
 				if (tw.empty()) { out += "R-"; break; }
-				size_t h = size_t(a1) % tw.size();
+				size_t h = ix(a1, tw.size());
+				if (h + 1 == tw.size()) stat("remove.last"); if (h == 0) stat("remove.first");
 				It r = It(c.Remove(at(c, h)));
 				size_t i = idx(c, r);
 				tok("R%u", unsigned(i));
@@ -225,11 +427,13 @@ struct Cfg
 				size_t elb = twLb(tw, k), eub = twUb(tw, k);
 				tw.erase(tw.begin() + elb, tw.begin() + eub);
 				if (n != eub - elb) bad("REMOVEKEY");
+				stat(n == 0 ? "removeKey.absent" : (n == 1 ? "removeKey.one" : "removeKey.many"));
 				break; }
 			case 'g': {
 				if (tw.empty()) { out += "G-"; break; }
-				size_t h1 = size_t(a1) % (tw.size() + 1), h2 = size_t(a2) % (tw.size() + 1);
+				size_t h1 = ix(a1, tw.size() + 1), h2 = ix(a2, tw.size() + 1);
 				if (h1 > h2) std::swap(h1, h2);
+				stat(h1 == h2 ? "removeRange.empty" : ((h1 == 0 && h2 == tw.size()) ? "removeRange.all" : (h2 == tw.size() ? "removeRange.toEnd" : (h1 == 0 ? "removeRange.fromBegin" : "removeRange.inner"))));
 				It r = It(c.Remove(at(c, h1), at(c, h2)));
 				size_t i = idx(c, r);
 				tok("G%u", unsigned(i));
@@ -238,18 +442,34 @@ struct Cfg
 				break; }
 			case 'p': {
 				long m = std::max<long>(a1, 1), r = a2; size_t n;
-				if constexpr (isMap) n = c.Remove([m, r] (const Key& key, const long&) { return KK::val(key) % m == r; });
+				if constexpr (isMap) n = c.Remove([m, r] (const Key& key, const Val&) { return KK::val(key) % m == r; });
 				else n = c.Remove([m, r] (const Key& key) { return KK::val(key) % m == r; });
 				tok("P%u", unsigned(n));
 				size_t before = tw.size();
+				stat(n == 0 ? "removeIf.none" : (n == before ? "removeIf.all" : "removeIf.some"));
 				tw.erase(std::remove_if(tw.begin(), tw.end(), [m, r] (const std::pair<long, long>& e) { return e.first % m == r; }), tw.end());
 				if (n != before - tw.size()) bad("REMOVEIF");
 				break; }
 			case 'n': {   // Insert(begin, end) over the comma separated keys (the sorted-input fast path when they come ordered)
 				std::vector<long> ks; { const char* p = arg; while (*p) { char* e; long v = std::strtol(p, &e, 10); if (e == p) break; ks.push_back(v); p = (*e == ',') ? e + 1 : e; } }
-				size_t n;
-				if constexpr (isMap) { std::vector<std::pair<Key, long>> v; for (long k : ks) { long sr = serial++; v.emplace_back(KK::make(k, sr), sr); } n = c.Insert(v.begin(), v.end()); }
-				else { std::vector<Key> v; for (long k : ks) v.push_back(KK::make(k, serial++)); n = c.Insert(v.begin(), v.end()); }
+				size_t n; bool il = (serial % 2 == 0) && ks.size() >= 1 && ks.size() <= 3;   // short runs every other time through Insert(std::initializer_list)
+				stat(il ? "insertRange.initializer_list" : "insertRange.iterators");
+				if constexpr (isMap)
+				{
+					typedef std::pair<Key, Val> P; std::vector<P> v; for (long k : ks) { long sr = serial++; v.emplace_back(KK::make(k, sr), VK::make(sr)); }
+					if (!il) n = c.Insert(v.begin(), v.end());
+					else if (v.size() == 1) n = c.Insert({ v[0] });
+					else if (v.size() == 2) n = c.Insert({ v[0], v[1] });
+					else n = c.Insert({ v[0], v[1], v[2] });
+				}
+				else
+				{
+					std::vector<Key> v; for (long k : ks) v.push_back(KK::make(k, serial++));
+					if (!il) n = c.Insert(v.begin(), v.end());
+					else if (v.size() == 1) n = c.Insert({ v[0] });
+					else if (v.size() == 2) n = c.Insert({ v[0], v[1] });
+					else n = c.Insert({ v[0], v[1], v[2] });
+				}
 				tok("N%u", unsigned(n));
 				size_t exp = 0; long sr0 = serial - long(ks.size());
 				for (size_t q = 0; q < ks.size(); ++q)
@@ -260,16 +480,14 @@ struct Cfg
 				if (n != exp) bad("INSERTRANGE");
 				break; }
 			case 'c': c.Clear(); tw.clear(); out += 'C'; break;
+			case 'z': {   // destroy this container while the other one lives on, then start a new one in its place
+				c.~C(); ::new(static_cast<void*>(&c)) C(mkTraits(side), MM::make(side)); tw.clear(); out += 'Z'; break; }
 			case 'x': {   // Extract at index a1, optionally re-key (a2 >= 0), Insert the extracted item back
 				if (tw.empty()) { out += "X-"; break; }
-				size_t h = size_t(a1) % tw.size();
+				size_t h = ix(a1, tw.size());
 				auto ext = c.Extract(at(c, h));
 				std::pair<long, long> e = tw[h]; tw.erase(tw.begin() + h);
-				if (na == 2 && a2 >= 0)
-				{
-					e.first = a2;
-					if constexpr (isMap) ext.GetKey() = KK::make(a2, e.second); else ext.GetItem() = KK::make(a2, e.second);
-				}
+				if (na >= 2 && a2 >= 0) { e.first = a2; rekeyAny(ext, a2, e.second); }
 				size_t lb = twLb(tw, e.first), ub = twUb(tw, e.first);
 				bool expIns = multi || lb == ub;
 				auto r = c.Insert(std::move(ext));
@@ -277,24 +495,64 @@ struct Cfg
 				tok("X%u/%d", unsigned(i), int(r.inserted));
 				if (expIns) tw.insert(tw.begin() + ub, e);
 				if (i != (expIns ? ub : lb) || r.inserted != expIns || keyOf(pos) != e.first || (hasSerial && expIns && serOf(pos) != e.second)) bad("EXTRACT");
+				if (!expIns) stat("extract.reinsertRefused(item destroyed with the ExtractedItem)");
+				break; }
+			case 'X': {   // Remove(iter, extractedItem&), then Add(returned iterator, ExtractedItem&&): back to the same place
+				if (tw.empty()) { out += "X-"; break; }
+				size_t h = ix(a1, tw.size());
+				Ext ext;
+				It r1 = It(c.Remove(at(c, h), ext));
+				if (idx(c, r1) != h || ext.IsEmpty()) bad("REMOVEEXT");
+				It r2 = It(c.Add(r1, std::move(ext)));
+				size_t i = idx(c, r2);
+				tok("X%u/1", unsigned(i));
+				if (i != h || keyOf(r2) != tw[h].first || (hasSerial && serOf(r2) != tw[h].second) || !ext.IsEmpty()) bad("ADDEXT");
+				break; }
+			case 'd': {   // Extract and let the ExtractedItem die with the item inside
+				if (tw.empty()) { out += "D-"; break; }
+				size_t h = ix(a1, tw.size());
+				{ auto ext = c.Extract(at(c, h)); if (ext.IsEmpty()) bad("EXTRACTEMPTY"); }
+				tw.erase(tw.begin() + h); out += 'D';
 				break; }
 			case 'e': {   // ResetKey at index a1 to key a2 when that keeps the order
 				if (tw.empty()) { out += "E-"; break; }
-				size_t h = size_t(a1) % tw.size(); long k = a2;
+				size_t h = ix(a1, tw.size()); long k = a2;
 				bool okk = (h == 0 || ordered(tw[h - 1].first, k)) && (h + 1 == tw.size() || ordered(k, tw[h + 1].first));
 				if (!okk) { out += "E0"; break; }
 				c.ResetKey(at(c, h), KK::make(k, tw[h].second));
 				tw[h].first = k; out += "E1";
 				break; }
-			case 'y': {   // copy construct, then move-assign back
-				C c2(c); c = std::move(c2); out += 'Y'; break; }
+			case 'y': {   // copy construct (every other time with an explicit memory manager), then move-assign back
+				if (serial % 2) { C c2(c); c = std::move(c2); } else { C c2(c, MM::make(side)); c = std::move(c2); }
+				out += 'Y'; break; }
 			case 'Y': {   // copy assign into a fresh container, swap
-				C c2; c2 = c; c.Swap(c2); out += 'Y'; break; }
+				C c2(mkTraits(side), MM::make(side)); c2 = c; c.Swap(c2); out += 'Y'; break; }
 			case 'm': {   // move construct and move back
 				C c2(std::move(c)); if (c.GetCount() != 0) bad("MOVEDFROM"); c = std::move(c2); out += 'M'; break; }
-			case 'w': sd[0].c.Swap(sd[1].c); sd[0].tw.swap(sd[1].tw); out += 'W'; break;
+			case 'w': sd[0].c.Swap(sd[1].c); sd[0].tw.swap(sd[1].tw); std::swap(last[0], last[1]); out += 'W'; break;
+			case 'j': if constexpr (ID % 3 != 0) { out += 'J'; break; } else {   // (every third configuration, to keep the build time down)
+				// MergeTo a container of ANOTHER type (template MergeTo<Set>) and MergeFrom it back: same contents, same serial order
+				Alt alt(AltTraits(), MM::make(side));
+				c.MergeTo(alt);
+				if (c.GetCount() != 0 || alt.GetCount() != tw.size()) bad("MERGEALT");
+				c.MergeFrom(alt);
+				if (alt.GetCount() != 0) bad("MERGEALTBACK");
+				out += 'J'; fullCheck(s, false);
+				break; }
 			case 'u': case 'v': {   // u: side.MergeFrom(other)   v: other.MergeTo(side)  -- both move other's items into side
 				Side& d = s; Side& src = sd[1 - side];
+				{	// which path the real code is going to take (conditions re-evaluated here for the statistics only)
+					size_t cn = src.tw.size(), dn = d.tw.size();
+					bool eqMM = momo::internal::MemManagerProxy<MM>::IsEqual(src.c.GetMemManager(), d.c.GetMemManager());
+					const char* path;
+					if (trk != 0) path = "nonEmptyTraits->generic";
+					else if (cn == 0) path = "emptySource";
+					else if (eqMM && dn == 0) path = "swapShortcut";
+					else if (eqMM && ordered(d.tw.back().first, src.tw.front().first)) path = "fast(dst<src)";
+					else if (eqMM && src.tw.back().first < d.tw.front().first) path = "fast(src<dst)";
+					else { size_t lg = 0; while ((size_t(2) << lg) <= cn + dn) ++lg; path = (cn * lg < cn + dn) ? (eqMM ? "generic" : "unequalMM->generic") : (eqMM ? "linear" : "unequalMM->linear"); }
+					stat(std::string("merge.") + path);
+				}
 				if (k0 == 'u') d.c.MergeFrom(src.c); else src.c.MergeTo(d.c);
 				Twin rest;
 				for (auto& e : src.tw)
@@ -306,10 +564,11 @@ struct Cfg
 				tok("U%u,%u", unsigned(d.c.GetCount()), unsigned(src.c.GetCount()));
 				fullCheck(d, false);
 				fullCheck(src, false);
+				events(src);
 				break; }
 			default: out += '?';
 			}
-			if (k0 != 't' && k0 != 's' && k0 != 'q') fullCheckLight(s);
+			if (k0 != 't' && k0 != 's' && k0 != 'q') { fullCheckLight(s); events(s, k0 == 'i' || k0 == 'a' || k0 == 'f'); }
 		}
 		return out;
 	}
@@ -325,7 +584,7 @@ struct Cfg
 template<class CF> static std::string runCase(std::istringstream& is)
 {
 	std::string out;
-	long b0 = CountMM::liveBlocks, h0 = HeapKey::liveCount;
+	long b0 = CountMM::liveBlocks, h0 = heapLive, w0 = wrongMM, m0 = selfMoves;
 	{
 		CF* r = new CF();
 		out = r->run(is);
@@ -333,63 +592,98 @@ template<class CF> static std::string runCase(std::istringstream& is)
 		out = r->out;
 		delete r;
 	}
-	if (CountMM::liveBlocks != b0 || HeapKey::liveCount != h0) out += " !LEAK";
+	if (CountMM::liveBlocks != b0 || heapLive != h0) out += " !LEAK";
+	if (wrongMM != w0) out += " !WRONGMM";
+	if (selfMoves != m0) out += " !SELFMOVE";
 	return out;
+}
+template<class CF> static std::string facts()
+{
+	char b[256];
+	std::snprintf(b, sizeof b, "@layout=%c crew=%s keyTriv=%d keyNothrowReloc=%d keyNothrowSwap=%d itemShiftable=%d lin=%d multi=%d checkVersion=%d emptyMM=%d emptyTraits=%d map=%d",
+		CF::realLayoutCont() ? 'C' : 'I', CF::ptrCrew ? "ptr" : "inline", int(CF::KeyMgr::isTriviallyRelocatable), int(CF::KeyMgr::isNothrowRelocatable),
+		int(CF::KeyMgr::isNothrowSwappable), int(CF::itemShiftable), int(CF::Traits::useLinearSearch), int(CF::Traits::multiKey), int(CF::C::Settings::checkVersion),
+		int(CF::emptyMM), int(std::is_empty<typename CF::Traits>::value), int(CF::isMap));
+	return b;
 }
 
 typedef MemPoolParams<1> P1; typedef MemPoolParams<8> P8; typedef MemPoolParams<1, 0> P1N; typedef MemPoolParams<8, 0> P8N;
+typedef MemPoolParams<2> P2; typedef MemPoolParams<127> P127;
+typedef StatMM<true> MMeq; typedef StatMM<false> MMne;
 
 #ifndef CFGSET
 #define CFGSET 0
 #endif
 
-//            id  key   map    multi maxCap step pool cont  lin
+//   id  key    value  multi maxCap step pool cont(asked) lin  checkVersion memory-manager traits layout(real)
 #define CONFIGS_0(X) \
-	X(0,  IntK,  false, false, 1,   0,   P8,  true,  true)  \
-	X(1,  IntK,  true,  true,  1,   1,   P1,  false, false) \
-	X(2,  StrK,  false, true,  2,   0,   P1,  true,  false) \
-	X(3,  IntK,  true,  false, 2,   1,   P8,  false, true)  \
-	X(4,  HeapK, false, true,  2,   2,   P8,  true,  false) \
-	X(5,  IntK,  false, true,  3,   1,   P8,  true,  true)  \
-	X(6,  StrK,  true,  false, 3,   2,   P1,  false, false) \
-	X(7,  IntK,  false, false, 3,   100, P8,  true,  false)
+	X(0,  IntK,  NoV,   false, 1,   0,   P8,  true,  true,  true,  CountMM, 0, 'C') \
+	X(1,  IntK,  LongV, true,  1,   1,   P1,  false, false, true,  CountMM, 0, 'I') \
+	X(2,  StrK,  NoV,   true,  2,   0,   P1,  true,  false, true,  CountMM, 0, 'C') \
+	X(3,  IntK,  LongV, false, 2,   1,   P8,  false, true,  true,  CountMM, 0, 'I') \
+	X(4,  HeapK, NoV,   true,  2,   2,   P8,  true,  false, true,  CountMM, 0, 'I') \
+	X(5,  IntK,  NoV,   true,  3,   1,   P8,  true,  true,  true,  CountMM, 0, 'C')
 #define CONFIGS_1(X) \
-	X(8,  IntK,  true,  true,  4,   0,   P8,  false, true)  \
-	X(9,  HeapK, false, false, 4,   1,   P1N, true,  false) \
-	X(10, IntK,  false, false, 4,   2,   P8,  true,  true)  \
-	X(11, StrK,  false, true,  4,   100, P1,  true,  true)  \
-	X(12, IntK,  false, false, 5,   1,   P8,  true,  false) \
-	X(13, IntK,  true,  true,  5,   2,   P1,  true,  true)  \
-	X(14, HeapK, true,  true,  5,   0,   P8N, false, false) \
-	X(15, IntK,  false, false, 5,   100, P1N, false, true)
+	X(6,  StrK,  LongV, false, 3,   2,   P1,  false, false, true,  CountMM, 0, 'I') \
+	X(7,  IntK,  NoV,   false, 3,   100, P8,  true,  false, true,  CountMM, 0, 'C') \
+	X(8,  IntK,  LongV, true,  4,   0,   P8,  false, true,  true,  CountMM, 0, 'I') \
+	X(9,  HeapK, NoV,   false, 4,   1,   P1N, true,  false, true,  CountMM, 0, 'I') \
+	X(10, IntK,  NoV,   false, 4,   2,   P8,  true,  true,  true,  CountMM, 0, 'C') \
+	X(11, StrK,  NoV,   true,  4,   100, P1,  true,  true,  true,  CountMM, 0, 'C')
 #define CONFIGS_2(X) \
-	X(16, IntK,  false, false, 8,   1,   P8,  true,  true)  \
-	X(17, IntK,  false, true,  8,   2,   P1,  true,  false) \
-	X(18, StrK,  true,  false, 8,   0,   P1,  false, true)  \
-	X(19, IntK,  true,  true,  8,   100, P8,  true,  false) \
-	X(20, IntK,  false, false, 32,  4,   P8,  true,  true)  \
-	X(21, IntK,  true,  true,  32,  1,   P1,  false, false) \
-	X(22, HeapK, false, false, 32,  2,   P8,  true,  false) \
-	X(23, IntK,  false, true,  32,  0,   P1,  true,  true)
+	X(12, IntK,  NoV,   false, 5,   1,   P8,  true,  false, true,  CountMM, 0, 'C') \
+	X(13, IntK,  LongV, true,  5,   2,   P1,  true,  true,  true,  CountMM, 0, 'C') \
+	X(14, HeapK, LongV, true,  5,   0,   P8N, false, false, true,  CountMM, 0, 'I') \
+	X(15, IntK,  NoV,   false, 5,   100, P1N, false, true,  true,  CountMM, 0, 'I') \
+	X(16, IntK,  NoV,   false, 8,   1,   P8,  true,  true,  true,  CountMM, 0, 'C') \
+	X(17, IntK,  NoV,   true,  8,   2,   P1,  true,  false, true,  CountMM, 0, 'C')
 #define CONFIGS_3(X) \
-	X(24, IntK,  false, false, 255, 100, P1,  true,  true)  \
-	X(25, IntK,  true,  true,  255, 1,   P8,  false, false) \
-	X(26, IntK,  false, false, 255, 0,   P1N, true,  false) \
-	X(27, StrK,  false, true,  255, 2,   P8,  true,  true)  \
-	X(28, IntK,  false, true,  3,   0,   P8,  true,  false) \
-	X(29, IntK,  true,  true,  4,   1,   P8,  true,  false) \
-	X(30, IntK,  false, false, 2,   100, P1N, true,  true)  \
-	X(31, HeapK, true,  false, 1,   2,   P8,  false, false)
+	X(18, StrK,  LongV, false, 8,   0,   P1,  false, true,  true,  CountMM, 0, 'I') \
+	X(19, IntK,  LongV, true,  8,   100, P8,  true,  false, true,  CountMM, 0, 'C') \
+	X(20, IntK,  NoV,   false, 32,  4,   P8,  true,  true,  true,  CountMM, 0, 'C') \
+	X(21, IntK,  LongV, true,  32,  1,   P1,  false, false, true,  CountMM, 0, 'I') \
+	X(22, MoveK, NoV,   false, 32,  2,   P8,  true,  false, true,  CountMM, 0, 'C') \
+	X(23, IntK,  NoV,   true,  32,  0,   P1,  true,  true,  true,  CountMM, 0, 'C')
+#define CONFIGS_4(X) \
+	X(24, IntK,  NoV,   false, 255, 100, P1,  true,  true,  true,  CountMM, 0, 'C') \
+	X(25, IntK,  LongV, true,  255, 1,   P8,  false, false, true,  CountMM, 0, 'I') \
+	X(26, IntK,  NoV,   false, 255, 0,   P1N, true,  false, true,  CountMM, 0, 'C') \
+	X(27, StrK,  NoV,   true,  255, 2,   P8,  true,  true,  true,  CountMM, 0, 'C') \
+	X(28, IntK,  NoV,   true,  3,   0,   P8,  true,  false, true,  CountMM, 0, 'C') \
+	X(29, IntK,  LongV, true,  4,   1,   P8,  true,  false, true,  CountMM, 0, 'C')
+#define CONFIGS_5(X) \
+	X(30, IntK,  NoV,   false, 2,   100, P1N, true,  true,  true,  CountMM, 0, 'C') \
+	X(31, HeapK, LongV, false, 1,   2,   P8,  false, false, true,  CountMM, 0, 'I') \
+	X(32, IntK,  NoV,   false, 32,  4,   P8,  true,  true,  false, CountMM, 0, 'C') \
+	X(33, IntK,  LongV, true,  4,   2,   P8,  true,  false, false, CountMM, 0, 'C') \
+	X(34, SwapK, NoV,   true,  3,   1,   P8,  true,  false, true,  CountMM, 0, 'C') \
+	X(35, SwapK, LongV, false, 8,   2,   P1,  true,  false, false, CountMM, 0, 'C')
+#define CONFIGS_6(X) \
+	X(36, IntK,  HeapV, true,  4,   1,   P8,  true,  true,  true,  CountMM, 0, 'I') \
+	X(37, StrK,  StrV,  false, 5,   2,   P8,  true,  false, false, CountMM, 0, 'C') \
+	X(38, IntK,  NoV,   false, 4,   2,   P8,  true,  true,  true,  MMne,    0, 'C') \
+	X(39, IntK,  LongV, true,  2,   1,   P1,  true,  false, false, MMne,    0, 'C') \
+	X(40, IntK,  NoV,   true,  4,   1,   P8,  true,  false, true,  CountMM, 1, 'C') \
+	X(41, StrK,  NoV,   false, 3,   0,   P1,  true,  false, false, CountMM, 2, 'C')
+#define CONFIGS_7(X) \
+	X(42, IntK,  NoV,   false, 254, 127, P127, true, true,  true,  CountMM, 0, 'C') \
+	X(43, IntK,  NoV,   true,  255, 255, P2,  true,  false, false, CountMM, 0, 'C') \
+	X(44, IntK,  StrV,  false, 255, 254, P1,  false, true,  true,  CountMM, 0, 'I') \
+	X(45, IntK,  NoV,   false, 16,  2,   P8,  true,  true,  false, MMeq,    0, 'C') \
+	X(46, StrK,  LongV, true,  64,  8,   P1,  true,  false, true,  MMeq,    0, 'C') \
+	X(47, HeapK, NoV,   false, 255, 1,   P1,  true,  false, true,  CountMM, 0, 'I')
+// (32.. were added in the audit round: inline crew (checkVersion=false), swap-shifted items, non-trivial map values, stateful memory
+// managers (equal / unequal), non-empty and std traits, boundary node/pool parameters, library defaults, full 255-entry index table)
 
-#if CFGSET == 0
-#define CONFIGS CONFIGS_0
-#elif CFGSET == 1
-#define CONFIGS CONFIGS_1
-#elif CFGSET == 2
-#define CONFIGS CONFIGS_2
-#else
-#define CONFIGS CONFIGS_3
-#endif
+#define CAT_(a, b) a##b
+#define CAT(a, b) CAT_(a, b)
+#define CONFIGS CAT(CONFIGS_, CFGSET)
+
+// library defaults really are what configurations 20/32 (TreeNode<>), 45 (TreeNode<16>) and 46 (TreeNode<64>) spell out
+static_assert(std::is_same<TreeNodeDefault, TreeNode<32, 4, MemPoolParams<8>, true>>::value, "TreeNodeDefault");
+static_assert(std::is_same<TreeNode<16>, TreeNode<16, 2, MemPoolParams<8>, true>>::value && std::is_same<TreeNode<64>, TreeNode<64, 8, MemPoolParams<1>, true>>::value, "TreeNode defaults");
+static_assert(TreeTraits<int>::useLinearSearch && !TreeTraits<std::string>::useLinearSearch && !TreeTraits<int>::multiKey, "TreeTraits defaults");
+static_assert(std::is_same<TreeMultiMap<int, long>, TreeMap<int, long, TreeTraits<int, true>>>::value, "TreeMultiMap");
 
 int main()
 {
@@ -400,11 +694,13 @@ int main()
 		int id; long mc, st, bc, lin, multi;
 		if (!(is >> id >> mc >> st >> bc >> lin >> multi)) { puts("?"); continue; }
 		std::string out = "?cfg";
+		bool wantFacts = line.find('@') != std::string::npos;
 		switch (id)
 		{
-#define X(ID, KK, MAP, MULTI, MC, ST, POOL, CONT, LIN) \
-		case ID: { typedef Cfg<KK, MAP, MULTI, MC, ST, POOL, CONT, LIN> CF; \
+#define X(ID, KK, VK, MULTI, MC, ST, POOL, CONT, LIN, VER, MM, TRK, LAYOUT) \
+		case ID: { typedef Cfg<ID, KK, VK, MULTI, MC, ST, POOL, CONT, LIN, VER, MM, TRK, LAYOUT> CF; \
 			if (mc != MC || st != ST || bc != long(POOL::blockCount) || lin != int(LIN) || multi != int(MULTI)) out = "?params"; \
+			else if (wantFacts) out = facts<CF>(); \
 			else out = runCase<CF>(is); break; }
 		CONFIGS(X)
 #undef X
@@ -413,5 +709,7 @@ int main()
 		puts(out.c_str());
 		fflush(stdout);   // one line per case must reach the pipe before a later case can crash
 	}
+	for (auto& e : STAT) std::fprintf(stderr, "#STAT %s\t%ld\n", e.first.c_str(), e.second);
+	for (auto& e : STATMAX) std::fprintf(stderr, "#STATMAX %s\t%ld\n", e.first.c_str(), e.second);
 	return 0;
 }
